@@ -171,7 +171,7 @@ ADDENDA = {
     "C11": "Extended: signed revocations (genuine + 7 forgeries, hosted did:web), re-issue racing revocations, stored lists aged (document and expiry column) to 20 min left / 1 h / 5 h past expiry. Round 5: SQL fault enumeration below the status-list store (gorm callbacks on the node's DB + SQLite ABORT triggers over every statement of revoke/issue/roll-over/serve; what the node reported must show afterwards); multi-entry credentialStatus arrays (revoked entry at every position of 2-4 entries x 14 neighbour kinds).",
     "C12": "Extended: same-id and id-less twin credentials with the map forged at the twin; typeless filters refuted by the reference, edge batch of filter vocabulary (enum+pattern, enum+const), one-sided verifier probes on single-descriptor definitions.",
     "C13": "Extended: node configurations with one method and a mid-sequence upgrade, single-change and no-op operations, failing clean-up transaction, operations on deactivated subjects, 8 subject-name families with ~45 look-alike lookups per name and operations on names no subject has.",
-    "C14": "Extended: must-refuse offers, offers failing in the store and repeated offers woven into every scenario; completions recorded by another party at three positions x five receiver outcomes; torn ledger tails ignored by shape.",
+    "C14": "Extended: must-refuse offers, offers failing in the store and repeated offers woven into every scenario; completions recorded by another party at three positions x five receiver outcomes; torn ledger tails ignored by shape. Round 5: single-operation fault matrix in the parent process (a decorating store fails exactly one Get/Put/Delete/Iterate/Range or the commit of every Add / Add-with-payload / WritePayload incl. the nested private write, each position in turn; unparsable job record; subscriber on another database): admitted => delivered or still replayable, not admitted => delivered to nobody.",
     "C15": "Extended: redelivery of admitted transactions (8 payload variants, range and list conversations), same-payload-hash alias transactions (incl. empty pal header), the real Network.CreateTransaction with 27+ participant situations (ground truth = the list the application asked for), serving while the own document is deactivated/unresolvable.",
     "C16": "Extended: three-credential service (clause x position x neighbour expiry), hosted did:web identities whose documents fail and heal between client passes, mixes of never/now/later verifiable entries on two services.",
     "C17": "Extended: one attacker key per JWK family (EC P-256/384/521, RSA, Ed25519, X25519, oct) in every private form, really signed, for every consumer; did:jwk kid of a private key; hosted did:web kid-other-party. Round 5: eighth consumer access-token-v1 (legacy introspect/verify endpoints) incl. a foreign-signer class (8 resolvable foreign signers) and a key-store fault dimension (decorated key store of the running node, 4 fault modes).",
